@@ -171,11 +171,15 @@ func H_Shutdown() {
 	st := state.WrapCore(cnt)
 	rt, err := runtime.NewRuntime(st, zap.NewNop(), options.WithMetrics(false))
 	verif.Assert(err == nil, "runtime created")
-	nf := 1
-	if verif.Tier() == "thorough" && verif.Choose("longerScripts", 2) == 1 {
-		// thorough = (scripts of <=1 fault, delay bound 1) + (scripts of <=2 faults, delay bound 0)
-		nf = 2
-		verif.SetPreemptions(0)
+	nf, nwrites := 1, 2
+	if verif.Tier() == "thorough" {
+		// thorough = (scripts of <=2 faults, <=2 writes, delay bound 0) + (scripts of <=1 fault, <=1 write, delay bound 1)
+		if verif.Choose("longerScripts", 2) == 1 {
+			nf = 2
+			verif.SetPreemptions(0)
+		} else {
+			nwrites = 1
+		}
 	}
 	f := &faulty{script: script("controllerFault", nf)}
 	m := &mirror{}
@@ -189,7 +193,7 @@ func H_Shutdown() {
 		verif.Atomic(func() { returned, writesAtReturn, activeAtReturn = true, cnt.Writes, active })
 	}()
 	own := 0
-	n := verif.Choose("writes", 3)
+	n := verif.Choose("writes", nwrites+1)
 	for i := 0; i < n; i++ {
 		if verif.Choose("settle", 2) == 1 {
 			verif.Quiesce()
